@@ -27,10 +27,10 @@ struct Net {
                     if (it == wire_ids.end()) wire_ids[k] = rec;
                     else VF_CHECK(it->second == rec, "dtls-epoch-seq-reused-for-different-record", "dir %d: (epoch,seq)=%s sent twice with different contents (type %u vs %u, len %zu vs %zu); %s", d, hex(id.data(), 8).c_str(), it->second[0], rec[0], it->second.size(), rec.size(), desc.c_str()); } } }
     }
-    unsigned deliveries = 0; bool capped = false; bool verbose = false;
+    unsigned deliveries = 0, cap = 400; bool capped = false; bool verbose = false;
     // Duplicates can start a retransmission ping-pong between the peers; the harness stops relaying after a budget
     // (equivalent to dropping the rest, which a lossy network may do) so every case terminates.
-    void deliver(int d, const Bytes &b) { if (++deliveries > 400) { capped = true; return; } Endpoint &to = *e[1 - d];
+    void deliver(int d, const Bytes &b) { if (++deliveries > cap) { capped = true; return; } Endpoint &to = *e[1 - d];
         if (verbose) { fprintf(stderr, "  %s dgram %zu bytes:", d ? "s->c" : "c->s", b.size()); for (auto &r : parse_records(b, true)) { fprintf(stderr, " [t%u e%u s%llu len%zu", r.type, r.epoch, (unsigned long long) r.seq, r.len); if (r.type == 22 && r.epoch == 0 && r.len >= 12) { const uint8_t *h = &b[r.off + 13]; fprintf(stderr, " hs%u msn%u foff%u flen%u/%u", h[0], h[4] << 8 | h[5], h[6] << 16 | h[7] << 8 | h[8], h[9] << 16 | h[10] << 8 | h[11], h[1] << 16 | h[2] << 8 | h[3]); } if (r.type == 21 && r.len == 2) fprintf(stderr, " ALERT %u/%u", b[r.off + 13], b[r.off + 14]); fprintf(stderr, "]"); } fprintf(stderr, "\n"); }
         if (to.ssl) { int rc = to.feed_dgram(b); if (verbose) { unsigned long bm; unsigned char lr[6], ee[2]; vfh_dtls_replay_state(to.ssl, &bm, lr, ee); fprintf(stderr, "     -> rc=%d  [rx state: expEpoch=%u lastRsn=%u bitmap=%lx]\n", rc, ee[0] << 8 | ee[1], lr[4] << 8 | lr[5], bm); } } }
 };
@@ -46,8 +46,9 @@ static void prop(Tape &t, Ctx &c) {
     int ndata = 1 + (int) t.below(5); std::vector<int> dsched; for (int i = 0; i < 12; i++) dsched.push_back((int) t.below(5));
     int nrep = (int) t.below(5); std::vector<uint32_t> rep; for (int i = 0; i < nrep; i++) rep.push_back(t.u16());
     uint32_t es = t.u16();
+    int gap_n = t.chance(1, 3) ? t.pick(std::vector<int>{ 30, 31, 32, 33, 40, 63, 64, 65 }) : 0; int gap_dir = 1 + (int) t.below(3);
     std::string ad; for (auto &a : adv) ad += fmt("%s%d,", dn[a.first], a.second);
-    std::string desc = fmt("%s %s kind=%d pmtu=%d adv=[%s] ndata=%d nreplay=%d", ver_name(ver), su.name, kind, pmtu, ad.c_str(), ndata, nrep);
+    std::string desc = fmt("%s %s kind=%d pmtu=%d adv=[%s] ndata=%d nreplay=%d gap=%d/%d", ver_name(ver), su.name, kind, pmtu, ad.c_str(), ndata, nrep, gap_n, gap_dir);
     c.sample(desc); if (c.verbose) fprintf(stderr, "case: %s\n", desc.c_str());
     vfh_entropy_reset(500 + es); vfh_clock_set_ms(1000000);
     matrixDtlsSetPmtu(pmtu);
@@ -118,7 +119,7 @@ static void prop(Tape &t, Ctx &c) {
     }
     VF_CHECK(p.c.hs_complete() && p.s.hs_complete(), pmtu < 1500 ? "dtls-handshake-did-not-complete-in-fair-phase:fragmented-flights" : net.capped ? "dtls-handshake-did-not-complete-in-fair-phase:retransmission-livelock" : "dtls-handshake-did-not-complete-in-fair-phase", "after %d timeout rounds of loss-free delivery: client complete=%d server complete=%d; %s", rounds, p.c.hs_complete(), p.s.hs_complete(), desc.c_str());
     c.count("completed"); c.count("fair-timeout-rounds", rounds);
-    net.deliveries = 0; net.capped = false; net.q[0].clear(); net.q[1].clear();
+    net.deliveries = 0; net.capped = false; net.cap = 4000; net.q[0].clear(); net.q[1].clear();
     // ---- data phase with duplication / reordering / drops
     std::set<Bytes> sent[2]; std::vector<Bytes> appdg[2];
     auto check_delivery = [&]() {
@@ -131,6 +132,18 @@ static void prop(Tape &t, Ctx &c) {
         net.e[d]->send(m); net.collect();
         while (!net.q[d].empty()) { Bytes b = net.q[d].front(); net.q[d].pop_front(); appdg[d].push_back(b);
             switch (dsched[(i * 2 + d) % dsched.size()]) { case 1: drops++; break; case 2: net.deliver(d, b); net.deliver(d, b); dups++; break; case 3: if (!net.q[d].empty()) { net.q[d].push_back(b); reorders++; break; } /* fallthrough */ default: net.deliver(d, b); } }
+        regress_check(); check_delivery();
+    }
+    // ---- sequence-number gap: a burst of lost datagrams moves the receive window by >= its size; the first datagram after the
+    // gap is then delivered, duplicated and replayed later (it must still be delivered exactly once)
+    if (gap_n) for (int d = 0; d < 2; d++) if ((gap_dir >> d) & 1) {
+        for (int i = 0; i < gap_n; i++) { Bytes m = numbered(d == 0 ? 'C' : 'S', 2000 + n++, 12); sent[d].insert(m); net.e[d]->send(m); net.collect(); while (!net.q[d].empty()) { appdg[d].push_back(net.q[d].front()); net.q[d].pop_front(); drops++; } }
+        Bytes m = numbered(d == 0 ? 'C' : 'S', 3000 + n++, 20); sent[d].insert(m); net.e[d]->send(m); net.collect();
+        while (!net.q[d].empty()) { Bytes b = net.q[d].front(); net.q[d].pop_front(); appdg[d].push_back(b); net.deliver(d, b); net.deliver(d, b); dups++; }
+        regress_check(); check_delivery();
+        c.count("window-gap-cases");
+        // late arrival of some of the "lost" datagrams and another replay of everything
+        for (auto &b : appdg[d]) net.deliver(d, b);
         regress_check(); check_delivery();
     }
     // ---- replay phase: any captured datagram (handshake epoch 0, CCS, Finished, application) replayed now, then every application datagram again
@@ -150,7 +163,7 @@ static void prop(Tape &t, Ctx &c) {
         VF_CHECK(net.e[1 - d]->delivered_msgs.size() == before + 1 && net.e[1 - d]->delivered_msgs.back() == m, "fresh-datagram-not-delivered-after-schedule", "dir %d: a fresh application datagram was not delivered after the schedule (delivered %zu -> %zu); %s", d, before, net.e[1 - d]->delivered_msgs.size(), desc.c_str()); }
     check_delivery();
     c.count("drops", drops); c.count("dups", dups); c.count("reorders", reorders); c.count("timeouts", timeouts);
-    if ((drops && (dups || reorders)) || nrep) c.nontrivial(fmt("%d|%04x|%d|%d|%u%u%u|%d", ver, su.id, kind, pmtu, drops > 0, dups > 0, reorders > 0, nrep));
+    if ((drops && (dups || reorders)) || nrep) c.nontrivial(fmt("%d|%04x|%d|%d|%u%u%u|%d|%d", ver, su.id, kind, pmtu, drops > 0, dups > 0, reorders > 0, nrep, gap_n));
 }
 VF_TARGET("C16.dtls_sched", prop, 512, 120)
 namespace vf { void vf_global_init(int, char **) { mxh::global_open(); } }
